@@ -76,12 +76,9 @@ func CalculateDuration(deposit sdk.Coin, flowRate int64) int64 {
 	// no point if the deposit value is zero - e.g. if re-calculating from a new flow rate
 	// of an existing stream
 	if deposit.Amount.GT(sdk.NewIntFromUint64(0)) {
-		// calculate duration in seconds
-		decFlowRate := sdk.NewDecFromInt(sdk.NewIntFromUint64(uint64(flowRate)))
-		decDeposit := sdk.NewDecCoinFromCoin(deposit)
-		decDuration := decDeposit.Amount.QuoTruncateMut(decFlowRate)
-		// note: decimal values are rounded down, e.g. 2628008.9 to just 2628008.
-		duration := decDuration.TruncateInt()
+		// calculate duration in whole seconds. Integer division rounds down, e.g. 2628008.9 to just
+		// 2628008, and - unlike a decimal quotient - cannot overflow for amounts beyond 2^255.
+		duration := deposit.Amount.Quo(sdk.NewInt(flowRate))
 		if !duration.IsInt64() {
 			// longer than int64 seconds: saturate instead of panicking; AddSecondsToTime rejects it
 			return math.MaxInt64
